@@ -8,6 +8,9 @@ verus! {
 //@ type src/handlers/hunk_header.rs HunkHeaderIncludeHunkLabel
 #[verifier::external_body]
 pub struct StyleSectionSpecifier<'l> { _p: std::marker::PhantomData<&'l ()> }
+/// the style sections are sections OF this text (`superimpose_style_sections` panics with "String mismatch" when the
+/// text it is given to paint is another one); uninterpreted
+pub uninterp spec fn sections_of(ss: StyleSectionSpecifier, text: Seq<char>) -> bool;
 
 /// Opaque stand-in for `Box<draw::DrawFunction>` (a boxed `dyn FnMut`); called through `verif_draw`.
 #[verifier::external_body]
@@ -44,7 +47,7 @@ impl<'p> Painter<'p> {
 //@ stub src/handlers/hunk_header.rs write_line_of_code_with_optional_path_and_line_number spec=hunk_header.wloc
 //@ fn src/handlers/hunk_header.rs write_line_of_code_with_optional_path_and_line_number spec=hunk_header.wloc.body od=off as=write_line_of_code_with_optional_path_and_line_number_body
 //@rewriteall <<<draw_fn(>>> => <<<verif_draw(&mut draw_fn,>>>
-//@afterstmt <<<let plus_line_number =>>>| assert(/* @C05:wloc.number.is.new.file.start */ plus_line_number == line_numbers_and_hunk_lengths@.last().0);
+//@afterstmt <<<let plus_line_number =>>>| proof { reveal_strlit(" "); reveal_strlit(""); if style_sections is Some && line@.len() > 0 { assert(line@ =~= code_fragment@ + seq![' ']); assert(line@.drop_last() =~= code_fragment@); } } assert(/* @C05:wloc.number.is.new.file.start */ plus_line_number == line_numbers_and_hunk_lengths@.last().0);
 
 /// (R3) `self.line.chars().take_while(|c| c == &'@').count()`: number of leading '@' characters.
 pub uninterp spec fn leading_ats(s: Seq<char>) -> usize;
